@@ -10,6 +10,8 @@ VERIF = os.path.dirname(os.path.dirname(os.path.abspath(__file__)))
 REPO = os.path.abspath(os.environ.get('VERIF_REPO', '/repo'))
 SEED = int(os.environ.get('VERIF_SEED', '0') or 0)
 GUARD = 'PRIVATE_PGM_VERIF'
+# evidence/ and replays/ describe /repo itself; a run against another tree (self-test, seeded change) writes under .scratch/
+OUT = VERIF if REPO == '/repo' else os.path.join(VERIF, '.scratch', os.path.basename(REPO) or 'tree')
 
 
 def repo_path(rel):
